@@ -113,6 +113,8 @@ type TagScanner struct {
 	// Inventory: after scanning a component the scanner reads all properties found so far.
 	Inventory bool
 	Seen      int
+	// Narrow: answer with a fresh list of the properties that carry the scanner's tag
+	Narrow bool
 }
 
 func NewTagScanner(h *Handle, tag, nodeType string, handler bool) *TagScanner {
@@ -169,6 +171,15 @@ func (s *TagScanner) PostProcessProperties(properties []*component_definition.Pr
 			rec.Args = append(rec.Args, append([]string{string(argType)}, args...))
 		})
 		s.Records = append(s.Records, rec)
+	}
+	if s.Narrow {
+		mine := []*component_definition.Property{}
+		for _, p := range properties {
+			if p.Tag == s.Tag {
+				mine = append(mine, p)
+			}
+		}
+		return mine, nil
 	}
 	return nil, nil
 }
